@@ -1,4 +1,5 @@
 import OntVerif.Proofs.NeoExec
+import OntVerif.Proofs.NeoExecInv
 import OntVerif.Proofs.NativeDec
 import OntVerif.Gen.PanicSites
 /-!
@@ -72,6 +73,38 @@ theorem C12_run_total (n : Nat) (m : M) : run n m ≠ .panic ∧ run n m ≠ .fu
         · exact ⟨nofun, nofun⟩
         · rename_i hp; rw [hp] at hb; exact hb.elim
         · exact ⟨nofun, nofun⟩
+
+/-- **References never dangle.** `WF m`: every reference on the stacks and inside heap objects points into the heap (what a Go pointer
+does by construction). Every opcode preserves `WF` and never takes the model's `dangling` branch on a `WF` machine. -/
+theorem C12_step_closed (m : M) (w : WF m) (op : Nat) :
+    step m op ≠ .dangling ∧ ∀ m', step m op = .ok m' → WF m' := by
+  have h := step_inv m op w
+  cases hs : step m op with
+  | ok m' => rw [hs] at h; exact ⟨nofun, fun m'' e => by injection e with e; subst e; exact h⟩
+  | dangling => rw [hs] at h; exact h.elim
+  | fault => exact ⟨nofun, nofun⟩
+  | panic => exact ⟨nofun, nofun⟩
+  | unmod => exact ⟨nofun, nofun⟩
+  | fuel => exact ⟨nofun, nofun⟩
+
+/-- **The executor part of the property, from the initial machine**: for every byte code, both feature flags and every number of steps,
+an invocation ends in a final (closed) machine, in a VM fault, at an opcode outside the model, or at the step limit — never in a Go
+panic, an exhausted model budget or a dangling reference. -/
+theorem C12_invoke_total (n : Nat) (code : Bytes) (allowEOF disableHasKey : Bool) :
+    (∃ m', run n { code := code, allowEOF := allowEOF, disableHasKey := disableHasKey } = .halt m' ∧ WF m') ∨
+    run n { code := code, allowEOF := allowEOF, disableHasKey := disableHasKey } = .fault ∨
+    run n { code := code, allowEOF := allowEOF, disableHasKey := disableHasKey } = .unmod ∨
+    run n { code := code, allowEOF := allowEOF, disableHasKey := disableHasKey } = .steplimit := by
+  have h1 := C12_run_total n { code := code, allowEOF := allowEOF, disableHasKey := disableHasKey }
+  have h2 := run_inv n { code := code, allowEOF := allowEOF, disableHasKey := disableHasKey } (wf_init code allowEOF disableHasKey)
+  cases hr : run n { code := code, allowEOF := allowEOF, disableHasKey := disableHasKey } with
+  | halt m' => exact .inl ⟨m', rfl, h2.2 m' hr⟩
+  | fault => exact .inr (.inl rfl)
+  | unmod => exact .inr (.inr (.inl rfl))
+  | steplimit => exact .inr (.inr (.inr rfl))
+  | panic => exact absurd hr h1.1
+  | fuel => exact absurd hr h1.2
+  | dangling => exact absurd hr h2.1
 
 /-- **`ValueStack`**: `Pop`, `Peek`, `Remove`, `Insert`, `Swap`, `Push` for every stack content and every index (negative, huge, = len) -/
 theorem C12_stack_ops_total (d : Stack) (i j : Int) (t : Val) :
@@ -407,6 +440,12 @@ theorem C12_asShipped_partial :
     (∀ (h : Heap) (v : Val), R.safe (convertHexOk h v) ∧ R.safe (buildRes h BUILD_FUEL v 0)) ∧
     (∀ (h0 : Heap) (r : Ref) (h : Heap), R.safe (cloneStruct CLONE_FUEL h0 r h 0)) :=
   ⟨step_safe, fun h v => ⟨convertHexOk_safe h v, C12_buildResult_terminates h v⟩, C12_clone_terminates⟩
+
+/-- **the full statement holds with the sound detector of C14** (`Variant.sound`: what `fixes/C12-buildparam-onpath-cycle.patch`
+achieves for `BuildParamToNative` — a cycle is reported instead of followed): `|heap| + 2` nested calls are enough on every heap -/
+theorem C12_sound : C12_full_statement .sound :=
+  ⟨step_safe, fun h v => ⟨convertHexOk_safe h v, C12_buildResult_terminates h v⟩, C12_clone_terminates,
+   fun perm h v _ => ⟨h.length + 2, fun path => natv_sound_terminates perm h v path⟩⟩
 
 /-- **as shipped the full statement is false** (the C14 defect, seen from C12): no budget makes `BuildParamToNative` return on `a = [1, a]` -/
 theorem C12_asShipped_counterexample : ¬ C12_full_statement .asShipped := by
